@@ -75,7 +75,7 @@ class C15(Check):
     def enter_state(self, ctx, sub, prog, rel, val):
         # fill the payloads of the parent's materializations so that sharing is observable
         self._parent_processed = False
-        if any(isinstance(n, Materialization) for n in walk.walk(rel)) and not findings.sql_materialization_over_changing_upstream(rel):
+        if any(isinstance(n, Materialization) for n in walk.walk(rel)):
             try:
                 RealProcessor(ctx).process(rel)
                 self._parent_processed = True
@@ -139,9 +139,6 @@ class C15(Check):
         # content (of preferred-engine calls it is C03's business)
         if tr.op in self.pe_set:
             return False
-        if findings.sql_materialization_over_changing_upstream(rel):
-            tr.count("content_skipped_known_c07_shape")
-            return tr.op not in self.pe_set
         try:
             out = RealProcessor(ctx).process(rel)
             got = ctx.rows_of(out)
